@@ -277,3 +277,84 @@ func nestCases(r *Rng, n int, cf *CoqFile, st *Stats) {
 	}
 	cf.AddCases("nest_cases", "sellist * sellist * sellist", "check_nest", items)
 }
+
+func nestCountAmp(cx []nCp) int {
+	n := 0
+	for _, c := range cx {
+		if c.amp {
+			n++
+		}
+		for _, s := range c.subs {
+			for _, a := range s.args {
+				n += nestCountAmp(a)
+			}
+		}
+	}
+	return n
+}
+
+// number of "&" after the implicit one of a relative selector has been added
+func nestDims(cx []nCp) int {
+	n := nestCountAmp(cx)
+	if !(cx[0].comb == 0 && n > 0) {
+		n++
+	}
+	return n
+}
+
+// the cross-product branch: several parents and a target without :is()
+func nestExpandCases(r *Rng, n int, cf *CoqFile, st *Stats) {
+	g := &nestGen{r: r}
+	var items []string
+	engines := []api.Engine{{Name: api.EngineChrome, Version: "60"}}
+	for i := 0; i < n; i++ {
+		var parents [][]nCp
+		np := r.Range(2, 3)
+		for k := 0; k < np; k++ {
+			parents = append(parents, g.complex(0, false, []int{1, 1, 2}[r.Intn(3)], 0, false))
+		}
+		var child [][]nCp
+		for k := []int{1, 1, 2}[r.Intn(3)]; k > 0; k-- {
+			var cx []nCp
+			for try := 0; ; try++ {
+				mode := r.Intn(10)
+				switch {
+				case mode < 2:
+					cx = g.complex(0, false, r.Range(1, 2), 0, false)
+				case mode < 4:
+					cx = g.complex(0, false, r.Range(1, 2), 20, true)
+				default:
+					cx = g.complex(0, false, r.Range(1, 3), 50, false)
+				}
+				if nestDims(cx) <= 3 || try > 50 {
+					break
+				}
+			}
+			child = append(child, cx)
+		}
+		src := nestListCSS(parents) + " { " + nestListCSS(child) + " { color: red } }"
+		got, out, why := nestLower(src, engines)
+		if why != "" {
+			failC12(st, "nest-expansion-unreadable", src, why+" | "+out, "one lowered style rule in the fragment")
+			continue
+		}
+		items = append(items, fmt.Sprintf("(%s, %s, %s)", nestListCoq(parents), nestListCoq(child), nestListCoq(got)))
+		inPc := false
+		for _, cx := range child {
+			top := 0
+			for _, c := range cx {
+				if c.amp {
+					top++
+				}
+			}
+			if nestCountAmp(cx) > top {
+				inPc = true
+			}
+		}
+		if inPc {
+			st.Histogram["nest-expand-amp-in-pseudo-arg"]++
+		}
+		st.Note("nest-expand", src, len(got) > len(child))
+	}
+	cf.AddCases("nestx_cases", "sellist * sellist * sellist", "check_nestx", items)
+}
